@@ -54,6 +54,12 @@ fn trace(a: &[String]) {
             g_seek(&mut w, &mut r2, 8 * mul, 14);
             let mut r3 = Rng::new(seed, "built", shard);
             g_built(&mut w, &mut r3, 40 * mul);
+            let mut r4 = Rng::new(seed, "trap", shard);
+            g_trap(&mut w, &mut r4, 20 * mul);
+            let mut r5 = Rng::new(seed, "matrix", shard);
+            g_matrix(&mut w, &mut r5, 2 * mul);
+            let mut r6 = Rng::new(seed, "illegal", shard);
+            g_illegal(&mut w, &mut r6, 6 * mul);
         }
         "local" => g_local(&mut w, &mut rng, seed, shard, nshards, thorough),
         "tables" => g_tables(&mut w, &mut rng, shard, nshards, thorough),
@@ -159,6 +165,22 @@ fn run_script(w: &mut W, text: &str) {
                 gs = match v[0] {
                     0 => Some(w.init_initial()),
                     1 => w.init_pos(&enc::string_of(&v[1..])),
+                    3 => w.init_pos_raw(&enc::string_of(&v[1..])),
+                    _ if v.len() > 15 => {
+                        // constructed state with an explicit turn-start hash and history (G-built / G-trap / G-matrix)
+                        let h0 = arimaa_engine_step::zobrist::verif::zobrist_from_raw(v[15]);
+                        let hist: Vec<_> = v[16..].iter().map(|x| arimaa_engine_step::zobrist::verif::zobrist_from_raw(*x)).collect();
+                        w.init_built(
+                            [v[1], v[2], v[3], v[4], v[5], v[6], v[7]],
+                            v[8] != 0,
+                            v[9],
+                            v[10],
+                            (v[11], v[12], v[13]),
+                            v[14] != 0,
+                            h0,
+                            &hist,
+                        )
+                    }
                     _ => w.init_new(
                         [v[1], v[2], v[3], v[4], v[5], v[6], v[7]],
                         v[8] != 0,
